@@ -6,10 +6,11 @@ import e2e_streams as ES
 
 MODULE = "Props.C11"
 THEOREMS = ["C11_uniform_in_range", "C11_null_range", "C11_inverse_monotone", "C11_round_half", "C11_string_index_range",
-            "C11_string_result", "commonPrefix_prefix", "drawInt_ok"]
+            "C11_string_result", "commonPrefix_prefix", "drawInt_ok", "commonPrefix_between", "C11_mask_prefix_covers_range"]
 PARTIAL = ["decoding to original units: proved that the affine inverse is monotone and rounding moves by <= 1/2 unit; that MinMaxScaler's "
            "coefficients and Python's round(x, p) are what the model takes them to be is trusted and validated by S-micro (cells exact)",
-           "'the prefix is a prefix of every string of the range' is a fact about sorted lists of strings, stated in DESIGN, not a Lean theorem"]
+           "the mask prefix theorem (C11_mask_prefix_covers_range) assumes the value map is sorted by code points; the oracle checks that on every "
+           "real string convertor"]
 ASSUMPTIONS = ["scikit-learn MinMaxScaler.inverse_transform computes (x - min_)/scale_"]
 TRUSTED = ["S-micro generators (typed tables + synthetic clipped/dyadic/null ranges)"]
 
@@ -38,6 +39,9 @@ def oracle(ctx):
                         ctx.oracle_fail(f"non-null range [{lo!r},{hi!r}] decoded to a null (null stand-in {nm!r})", case, "null"); continue
                     if isinstance(cv, StringConvertor):
                         vm = cv.value_map; n = len(vm)
+                        # hypothesis of C11_mask_prefix_covers_range: the value map is strictly increasing by code points
+                        if any([ord(ch) for ch in vm[i]] >= [ord(ch) for ch in vm[i + 1]] for i in range(n - 1)):
+                            ctx.oracle_fail("string value map is not strictly increasing by code points", dict(case0, column=j), "value-map-order")
                         mn = int(lo); mx = max(mn, min(int(hi) - 1, n - 1))
                         if lo == hi:
                             if val != vm[int(lo)]:
